@@ -248,6 +248,10 @@ def gen_scenario(rng, kind=None):
                               'prio': rng.choice([0, 0, 1, 2, 3, -1]), 'preempt': rng.random() < 0.6,
                               'patience': rng.choice([None, None, None, 0, 1]),
                               'style': rng.choice(['with', 'explicit', 'with', 'with-noyield', 'with-nowait'])})
+                if sc['capacity'] >= 2 and rng.random() < 0.35:
+                    # one process inside two request blocks at once (two slots of its own; a preemption takes one of them)
+                    steps[-1].update(style='nested', prio2=rng.choice([0, 1, 2, 3, -1]), preempt2=rng.random() < 0.6,
+                                     hold2=rng.choice([0, 1, 2, 4]), patience2=rng.choice([0, 1, 2]))
             sc['procs'].append(steps)
     return sc
 
@@ -322,6 +326,18 @@ def run_impl(sc):
                 elif st['style'] == 'with-nowait':
                     with mk():
                         yield env.timeout(st['hold'])
+                elif st['style'] == 'nested':
+                    mk2 = (lambda: res.request()) if kind == 'resource' else \
+                        (lambda: resource.PriorityRequest(res, st['prio2'], st['preempt2']))
+                    with mk() as req:
+                        ok = yield from waiting(req, st['patience'], cancel=False)
+                        if ok:
+                            with mk2() as req2:
+                                ok2 = yield from waiting(req2, st['patience2'], cancel=False)
+                                if ok2 and st['hold2']:
+                                    yield env.timeout(st['hold2'])
+                            if st['hold']:
+                                yield env.timeout(st['hold'])
                 elif st['style'] == 'with':
                     with mk() as req:
                         ok = yield from waiting(req, st['patience'], cancel=False)
@@ -366,11 +382,40 @@ def parse_state(reply):
             'log': [g for g in d.get('log', '').split(',') if g]}
 
 
+class Prefetched:
+    """the requests of one scenario are known in advance as long as model and implementation agree: send them in one batch
+    (one round trip instead of one per operation) and hand out the replies one by one; at the first request that was not
+    foreseen (a `sync` after a disagreement) bring the model back to that point and go on request by request"""
+
+    def __init__(self, drv, lines):
+        self.drv, self.lines, self.i, self.live = drv, lines, 0, False
+        self.replies = drv.ask_many(lines)
+
+    def ask(self, line):
+        if self.live:
+            return self.drv.ask(line)
+        if self.i < len(self.lines) and self.lines[self.i] == line:
+            self.i += 1
+            return self.replies[self.i - 1]
+        self.drv.ask_many(self.lines[:self.i])      # (the first line re-initialises the model)
+        self.live = True
+        return self.drv.ask(line)
+
+
 def check_scenario(res, drv, sc, rec):
     """replay the recorded operations on the Lean model, compare, judge"""
     kind = sc['kind']
     cap = sc.get('capacity')
-    drv.ask('c19 init %s %s %d' % (kind, 'inf' if cap is None else cap, sc.get('init', 0)))
+    init_line = 'c19 init %s %s %d' % (kind, 'inf' if cap is None else cap, sc.get('init', 0))
+    foreseen, now = [init_line], 0
+    for op in rec.ops:
+        if op['now'] != now:
+            foreseen += ['c19 eager', 'c19 tick %d' % op['now']]
+            now = op['now']
+        foreseen.append(op['line'])
+    foreseen.append('c19 eager')
+    drv = Prefetched(drv, foreseen)
+    drv.ask(init_line)
     case = {'scenario': sc}
     last_now = 0
     dirty = {'put': False, 'get': False}
